@@ -69,9 +69,9 @@ def run_unit(unit_name, repo, workdir, canary=False):
         # a callee the unit does not list (helper introduced by a refactor): pull it in and retry
         missing = []
         for d in diags:
-            mm = re.search(r"no method named `(\w+)` found|cannot find function `(\w+)`|no function or associated item named `(\w+)` found", d.get("message", ""))
+            mm = re.search(r"no method named `(\w+)` found|cannot find function `(\w+)`|no function or associated item named `(\w+)` found|cannot find value `([A-Z][A-Z0-9_]*)` in this scope", d.get("message", ""))
             if mm and d.get("level") == "error":
-                name = mm.group(1) or mm.group(2) or mm.group(3)
+                name = mm.group(1) or mm.group(2) or mm.group(3) or ("const:" + mm.group(4))
                 line = ([sp["line_start"] for sp in d.get("spans", []) if sp.get("is_primary")] or [0])[0]
                 fns = [x for x in u.items if x["kind"] == "fn" and not x.get("canary") and not x.get("auto")]
                 for ordn, it in enumerate(fns):
